@@ -312,10 +312,13 @@ func c10(r *Run) {
 			r.Dist["mixed-directive"]++
 		}
 	}
-	for _, m := range []string{"jsEscape(2)", "cssEscape(2)", "jsEscape|cssEscape", "cssEscape|jsEscape|cssEscape", "jse(3)", "ce"} {
+	for _, m := range []string{"jsEscape(2)", "cssEscape(2)", "jsEscape|cssEscape", "cssEscape|jsEscape|cssEscape", "jse(3)", "ce",
+		// a count that is not a number literal — a variable holding an integer, a counter, a missing name, a quoted word —
+		// is no count: one pass
+		"jsEscape(n)", "cssEscape(n)", "jse(cn)", "ce(cn)", "jsEscape(absent)", "cssEscape('css')", "jse(\"x\")", "jsEscape(n)|cssEscape(absent)", "jsEscape(ns)"} {
 		for _, in := range ins {
-			c := &RCase{Tpls: []TplDef{{Key: "main", Src: "{%= v|" + m + " %}", KeepFmt: true}}, Meta: map[string]any{"chain": m}}
-			c.Ops = []SOp{{Kind: "static", Name: "v", Val: in}, {Kind: "render", Key: "main"}}
+			c := &RCase{Tpls: []TplDef{{Key: "main", Src: "{%= v|" + m + " %}|{% ctx e = v|" + m + " %}{%= e %}", KeepFmt: true}}, Meta: map[string]any{"chain": m}}
+			c.Ops = []SOp{{Kind: "static", Name: "v", Val: in}, {Kind: "static", Name: "n", Val: int64(2)}, {Kind: "counter", Name: "cn", Val: 3}, {Kind: "static", Name: "ns", Val: "2"}, {Kind: "render", Key: "main"}}
 			cases = append(cases, c)
 		}
 	}
